@@ -180,11 +180,15 @@ def judge_scenario(ctx, scn, mdl, inc_hash, compiler, stats, prefix='c09', verbo
     info = [l.rstrip() for l in out.split('\n') if l.startswith('#')]
     mlines = [l.rstrip() for l in mout.split('\n') if l.strip()]
     if verbose:
-        print('--- oracle (what the property demands)\n' + '\n'.join(l for l, _ in expected))
-        print('--- implementation (%s, exit %d)\n%s' % (binp, rc, out))
+        at = verbose.get('line') if isinstance(verbose, dict) else None
+        lo, hi = (max(0, at - 4), at + 2) if at is not None else (0, len(expected))
+        def window(ls):
+            return '\n'.join('%s %4d  %s' % ('>>' if k == at else '  ', k, ls[k]) for k in range(lo, min(hi, len(ls)))) or '  (no such line: the trace has %d lines)' % len(ls)
+        print('--- oracle (what the property demands)%s\n%s' % ('' if at is None else ', around line %d' % at, window([l for l, _ in expected])))
+        print('--- implementation (%s, exit %d, %d lines)\n%s' % (binp, rc, len(lines), window(lines)))
         if rc != 0:
             print('--- implementation stderr (tail)\n' + err[-1500:])
-        print('--- model (extracted from Coq)\n' + mout)
+        print('--- model (extracted from Coq)\n' + window(mlines))
     nfail, ndisp = 0, 0
     for i, (exp, meta) in enumerate(expected):
         got = lines[i] if i < len(lines) else None
@@ -360,7 +364,7 @@ def main():
         if r.get('op'):
             print('--- reported operation: %s\n    expected: %s\n    got:      %s' % (json.dumps(r['op']), r.get('expected'), r.get('got')))
         ctx._nrep = 1000      # do not overwrite the file being replayed
-        judge_scenario(ctx, scn, mdl, inc_hash, comp, stats, verbose=True)
+        judge_scenario(ctx, scn, mdl, inc_hash, comp, stats, verbose=({'line': r['line']} if (isinstance(r.get('line'), int) and not os.environ.get('VERIF_FULL_TRACE')) else True))
         print('--- verdict: %d violation(s) of the property on this scenario' % stats['violations'])
         finish(ctx, stats)
         return
